@@ -8,7 +8,10 @@ optionally ``null:``).  The recipe is built by the real
 ``search_result_from_parent_map`` and, for every tip set of <= 2 keys (known,
 unknown, ghost or foreign) and every depth in {1,2,3,100}, by the real
 ``limited_search_result_from_parent_map`` (tip sets of one key only at the largest bound of
-the thorough tier: 4 nodes + 2 ghosts); serialised by the real
+the thorough tier: 4 nodes + 2 ghosts), with the client's negative cache = the referenced
+ghosts, plus ``null:`` whenever a known root names it (the real client notes ``null:`` missing
+after asking for it together with another key), plus - at the smaller bounds - one key noted
+missing that the server has by now (ghost filled in since); serialised by the real
 ``RemoteRepository._serialise_search_recipe``; replayed by the real
 ``SmartServerRepositoryRequest.recreate_search_from_recipe`` on the full graph
 (vcsgraph ``Graph`` over the complete parent map).  Oracle: the count check
@@ -204,14 +207,16 @@ class _Lazy:
 
 
 def check_graph(S, d, acc, variants, limited, ident):
-    """All K / missing / tips / depth cases for one DAG (limited = 0/False or max number of tip keys)."""
+    """All K / missing / tips / depth cases for one DAG.  limited = 0/False, or (max number of tip keys,
+    missing-keys mode) with mode "all" (every variant below) or "hostile" (only the largest one)."""
     vf = S["vf"]
     full = full_map(d)
     repo = FakeRepo(full)
     nodes = list(full)
     ghosts_all = sorted({p for ps in full.values() for p in ps if p not in full and p != NULL})
     tipcands = nodes + ghosts_all + [FOREIGN]
-    tipsets = [frozenset(t) for k in range(1, (limited or 0) + 1) for t in itertools.combinations(tipcands, k)]
+    max_tips, missing_mode = limited if limited else (0, None)
+    tipsets = [frozenset(t) for k in range(1, max_tips + 1) for t in itertools.combinations(tipcands, k)]
     for r in range(len(nodes) + 1):
         for K in itertools.combinations(nodes, r):
             pm = {k: full[k] for k in K}
@@ -264,21 +269,42 @@ def check_graph(S, d, acc, variants, limited, ident):
                 pmn = dict(pm)
                 pmn[NULL] = ()
                 pmaps.append(pmn)
+            lcases = []
             for pmap in pmaps:
+                # What the client's negative cache may hold: the referenced ghosts; null: as well once
+                # it was asked for together with another key (RemoteRepository._get_parent_map_rpc answers
+                # without it, the caching provider then notes it missing) - possible whenever a known
+                # root names it as parent and it is not cached as present; and a key noted missing that
+                # the server has by now (a ghost filled in since).
+                hostile = frozenset(gref) | ({NULL} if (NULL in refs and NULL not in pmap) else frozenset())
+                if missing_mode == "all":
+                    mvs = [frozenset(gref)]
+                    if hostile not in mvs:
+                        mvs.append(hostile)
+                    for x in sorted(refs):
+                        if x in full and x not in Kset:
+                            mvs.append(hostile | {x})
+                else:
+                    mvs = [hostile]
+                lcases.extend((pmap, m) for m in mvs)
+            for pmap, missing in lcases:
                 for tips in tipsets:
                     for depth in DEPTHS:
                         acc.n += 1
                         acc.count("limited")
-                        detail = _Lazy(graph=full, known=pmap, tips=tips, depth=depth)
+                        if missing != frozenset(gref):
+                            acc.count("limited_null_or_filled_ghost_noted_missing")
+                        detail = _Lazy(graph=full, known=pmap, missing_keys=missing, tips=tips, depth=depth)
                         try:
-                            recipe = vf.limited_search_result_from_parent_map(dict(pmap), set(gref), set(tips), depth)
+                            recipe = vf.limited_search_result_from_parent_map(dict(pmap), set(missing), set(tips), depth)
                             got, err, body = send(S, repo, recipe)
                         except Exception as e:  # noqa
                             acc.violation("limited:%s" % _exc_sig(e), detail.d())
                             continue
                         detail.kw["recipe"] = body
                         if err:
-                            acc.violation("limited:%s" % err, detail.d())
+                            acc.violation("limited:%s%s" % (err, ":null-in-missing" if NULL in missing else (
+                                ":filled-ghost-in-missing" if missing - set(gref) else "")), detail.d())
                             continue
                         intended = ref_walk(set(recipe[0]), set(recipe[1]), pmap)
                         if not got <= set(pmap):
@@ -373,7 +399,7 @@ def _work_b(chunk):
                     if K:
                         for depth in (1, 2, 100):
                             recipes.append(("limited", depth, vf.limited_search_result_from_parent_map(
-                                dict(pm), set(gref), set(wanted), depth)))
+                                dict(pm), set(gref) | ({NULL} if NULL in refs else set()), set(wanted), depth)))
                     for kind, depth, recipe in recipes:
                         acc.n += 1
                         body = S["ser"](None, ("manual",) + tuple(recipe))
@@ -422,13 +448,13 @@ def _smallest(violations):
 
 
 def plan(ctx):
-    """[(n, nghost, variants, limited, max_tips)] for part A."""
+    """[(n, nghost, variants, limited, max_tips, missing_mode)] for part A."""
     if ctx.thorough:
-        return [(n, 2, True, True, 2) for n in range(1, 4)] + [(4, 2, True, True, 1), (4, 1, False, True, 2),
-                                                               (5, 1, True, False, 0), (5, 2, False, False, 0),
-                                                               (6, 0, False, False, 0)]
-    return [(n, 2, True, True, 2) for n in range(1, 4)] + [(4, 2, True, False, 0), (4, 1, False, True, 2),
-                                                           (5, 1, False, False, 0)]
+        return [(n, 2, True, True, 2, "all") for n in range(1, 4)] + [
+            (4, 2, True, True, 1, "hostile"), (4, 1, False, True, 2, "all"),
+            (5, 1, True, False, 0, None), (5, 2, False, False, 0, None), (6, 0, False, False, 0, None)]
+    return [(n, 2, True, True, 2, "all") for n in range(1, 4)] + [
+        (4, 2, True, False, 0, None), (4, 1, False, True, 2, "hostile"), (5, 1, False, False, 0, None)]
 
 
 def run(ctx):
@@ -436,17 +462,17 @@ def run(ctx):
     # determinism audit: first graphs twice
     for d in itertools.islice(graphs(3, 1), 25):
         a1, a2 = SigAcc(), SigAcc()
-        check_graph(S, d, a1, True, 2, None)
-        check_graph(S, d, a2, True, 2, None)
+        check_graph(S, d, a1, True, (2, "all"), None)
+        check_graph(S, d, a2, True, (2, "all"), None)
         if (a1.n, a1.outcomes, a1.counters, a1.violations) != (a2.n, a2.outcomes, a2.counters, a2.violations):
             raise HarnessError("non-deterministic result for graph %r" % (d,))
     items = []
     bounds = []
-    for n, ng, variants, limited, max_tips in plan(ctx):
+    for n, ng, variants, limited, max_tips, mmode in plan(ctx):
         its = graph_items(n, ng)
-        items.extend((it, variants, limited and max_tips) for it in its)
+        items.extend((it, variants, (max_tips, mmode) if limited else 0) for it in its)
         bounds.append({"nodes": n, "ghosts": ng, "null_variants": variants, "depth_limited": bool(limited),
-                       "max_tip_keys": max_tips if limited else None})
+                       "max_tip_keys": max_tips if limited else None, "limited_missing_keys": mmode})
     acc = par.merge(par.pmap(_work, items, seed=ctx.seed, chunks_per_job=8))
     if ctx.thorough:
         b_plan = [(1, 2), (2, 2), (3, 2), (4, 0)]
@@ -465,6 +491,7 @@ def run(ctx):
         "limited_recipes": acc.counters.get("limited", 0),
         "limited_nonempty": acc.counters.get("nt_limited", 0),
         "limited_strict_subset_of_known": acc.counters.get("limited_strict_subset_of_known", 0),
+        "limited_null_or_filled_ghost_noted_missing": acc.counters.get("limited_null_or_filled_ghost_noted_missing", 0),
         "graphs": acc.counters.get("graphs", 0),
         "e2e_requests": accb.n,
         "e2e_repositories": accb.counters.get("repositories", 0),
